@@ -93,6 +93,14 @@ def _impl_caps(a):
             r = _remote(a["ir"])
     except Exception as e:  # noqa
         return "ctor-raise " + C.exc_name(e)
+    # what a caller does with the list it was handed (sort it, drop entries while filtering, clear it) is the caller's business:
+    # the remote must answer the same afterwards
+    handed = r.supported_modes
+    try:
+        handed.reverse()
+        del handed[1:]
+    except Exception:  # noqa
+        pass
     return (f"caps modes={','.join(m.name for m in r.supported_modes)} min={r.min_temperature} max={r.max_temperature} "
             f"toggle={int(r.on_off_type)} sepswing={int(r.separated_swing_command)} id={C.ut(r.remote_id)}")
 
